@@ -40,6 +40,19 @@ def check_validate(ctx, case):
                 pass
             except Exception as e:  # noqa
                 ctx.fail("{}.{}() raises {} instead of InvalidSequence".format(cls.__name__, meth, type(e).__name__), case)
+        # the error can be shown to the user (str / repr), whatever text the record is called
+        for rid_ in ("q", "p{GFP}-{0}", "50% {", "a}b"):
+            try:
+                cls(impl.CircularRecord(impl.Seq(wd), id=rid_, name=rid_)).overhang_start()
+            except boot.errors.InvalidSequence as e:
+                try:
+                    str(e), repr(e)
+                except Exception as e2:  # noqa
+                    ctx.fail("the InvalidSequence raised for the record called {!r} cannot be rendered: str() raises {}".format(
+                        rid_, type(e2).__name__), case)
+                    break
+            except Exception:  # noqa   (reported above)
+                pass
     # the same circular record as Bio.SeqIO hands it over (a plain SeqRecord annotated circular): same answer, no exception
     plain = impl.SeqRecord(impl.Seq(wd), id="q", annotations={"topology": "circular", "molecule_type": "DNA"})
     try:
@@ -145,6 +158,7 @@ def run(ctx):
         cls = asm.cls_by_name("generic:{}:{}".format(kind, enz))
         ctx.guard(check_validate, {"cls": "generic:{}:{}".format(kind, enz), "word": malformed_for(rng, cls, kits)})
     check_3prime(ctx)
+    hundred_done = 0
     # a vector whose two overhangs are the same letters (in any case) cannot receive a chain, but it is a record with the
     # vector structure: what is_valid() says and what the accessors do must agree
     for enz in asm.pick_enzymes(rng, ctx.budget(40, 1000)):
@@ -188,6 +202,14 @@ def run(ctx):
             case["mods"].append(case["mods"][0])
         if any(e.get("refs") for e in [case["vector"]] + case["mods"]):
             case["template"] = True
+        if hundred_done < (1 if ctx.tier == "quick" else 5):
+            # a well-documented plasmid: more than a hundred references, a feature citing the last ones
+            e0 = rng.choice(case["mods"])
+            e0["refs"] = list(range(200, 200 + rng.randint(101, 130)))
+            n0 = len(e0["word"])
+            e0["feats"] = list(e0.get("feats") or []) + [[1, "u88", ["i%d" % len(e0["refs"]), "i100"], [[0, min(n0, 2), 1]]]]
+            hundred_done += 1
+            ctx.note("hundred-references")
         ctx.guard(check_assembly, case)
 
 
